@@ -201,7 +201,12 @@ pub fn mutations(s: &Seed, seed: u64, thorough: bool) -> Vec<(String, Vec<u8>)> 
     for i in 0..8usize.min(n / 4) { for j in (i + 1)..8usize.min(n / 4) { for &x in &hv { for &y in &hv { if !thorough && !matches!(s.fmt, "dbc" | "attr" | "patch" | "skin" | "anim") && (i + j + x as usize + y as usize + seed as usize) % 4 != 0 { continue; } let mut m = b.clone(); m[i * 4..i * 4 + 4].copy_from_slice(&x.to_le_bytes()); m[j * 4..j * 4 + 4].copy_from_slice(&y.to_le_bytes()); out.push((format!("dwords@{},{}={x:#x},{y:#x}", i * 4, j * 4), m)); } } } }
     // chunk reordering / duplication / deletion
     if matches!(s.fmt, "adt" | "wmo" | "wdt" | "wdl" | "m2c") { let mut cs: Vec<(usize, usize)> = vec![]; let mut p = 0usize; while p + 8 <= n { let sz = u32::from_le_bytes([b[p + 4], b[p + 5], b[p + 6], b[p + 7]]) as usize; if p + 8 + sz > n { break; } cs.push((p, p + 8 + sz)); p += 8 + sz; }
-        for i in 0..cs.len().min(14) { let mut del = vec![]; let mut dup = vec![]; for (k, c) in cs.iter().enumerate() { if k != i { del.extend(&b[c.0..c.1]); } dup.extend(&b[c.0..c.1]); if k == i { dup.extend(&b[c.0..c.1]); } } out.push((format!("delete chunk {i}"), del)); out.push((format!("duplicate chunk {i}"), dup));
+        let mut picks: Vec<usize> = (0..cs.len().min(14)).collect(); for k in cs.len().saturating_sub(3)..cs.len() { if !picks.contains(&k) { picks.push(k); } }
+        for i in picks { let mut del = vec![]; let mut dup = vec![]; for (k, c) in cs.iter().enumerate() { if k != i { del.extend(&b[c.0..c.1]); } dup.extend(&b[c.0..c.1]); if k == i { dup.extend(&b[c.0..c.1]); } } out.push((format!("delete chunk {i}"), del)); out.push((format!("duplicate chunk {i}"), dup));
+            // a chunk moved far away from its neighbours: to the end of the file, and right behind the first chunk
+            if cs.len() > 2 { let mv = |to_end: bool| -> Vec<u8> { let mut o = vec![]; if !to_end { o.extend(&b[cs[0].0..cs[0].1]); if i != 0 { o.extend(&b[cs[i].0..cs[i].1]); } }
+                    for (k, c) in cs.iter().enumerate() { if k != i && (to_end || k != 0) { o.extend(&b[c.0..c.1]); } } if to_end { o.extend(&b[cs[i].0..cs[i].1]); } o };
+                out.push((format!("move chunk {i} to the end"), mv(true))); if i > 1 { out.push((format!("move chunk {i} behind the first"), mv(false))); } }
             if i + 1 < cs.len() { let mut sw = vec![]; for (k, _) in cs.iter().enumerate() { let c = if k == i { cs[i + 1] } else if k == i + 1 { cs[i] } else { cs[k] }; sw.extend(&b[c.0..c.1]); } out.push((format!("swap chunks {i},{}", i + 1), sw)); } } }
     // havoc
     for h in 0..(if thorough { 400 } else { 60 }) { let mut m = b.clone(); for _ in 0..rng.range(1, 6) { if m.is_empty() { break; } let p = rng.below(m.len() as u64) as usize; match rng.below(5) { 0 => m[p] = rng.next() as u8, 1 => m[p] ^= 1 << rng.below(8), 2 => { m.insert(p, rng.next() as u8); } 3 => { m.remove(p); } _ => { let e = (p + rng.range(1, 16) as usize).min(m.len()); for x in &mut m[p..e] { *x = 0xFF; } } } } out.push((format!("havoc {h}"), m)); }
